@@ -305,10 +305,12 @@ _LABELLA_PREFIX = os.path.join(REPO, "labella") + os.sep
 
 
 class AbortTracer(object):
-    """Raise SimAbort at the k-th line event executed inside labella code."""
+    """Raise SimAbort at the k-th line event executed inside labella code
+    (optionally only counting lines of one file, or of lambdas)."""
 
-    def __init__(self, k):
+    def __init__(self, k, scope="any"):
         self.k = k
+        self.scope = scope
         self.n = 0
         self.fired = False
         self.where = None
@@ -320,6 +322,13 @@ class AbortTracer(object):
 
     def _local(self, frame, event, arg):
         if event == "line":
+            if self.scope != "any":
+                code = frame.f_code
+                if self.scope == "<lambda>":
+                    if code.co_name != "<lambda>":
+                        return self._local
+                elif os.path.basename(code.co_filename) != self.scope:
+                    return self._local
             self.n += 1
             if self.n == self.k:
                 self.fired = True
